@@ -59,6 +59,12 @@ def tasks(tier, seed):
             cfg = configs.cfg("StoSOO", part, K, configs.BOXES[box], n=300, k=k, h_max=hm)
             ts.append({"kind": "algo", "label": "dev/StoSOOcap%d_%d/%s" % (hm, k, part), "cfg": cfg, "mode": "dev", "T": 90,
                        "R": list(configs.R3), "base": "twopeak", "k": 1, "cost": 6})
+    # StroquOOL: one budget per value of h_max (1..8), whole run on three reward scripts (k=0: one execution each)
+    for n in (100, 185, 326, 482, 649, 826, 1011, 1203):
+        for base in ("negpeak", "zero", "alt", "neg"):
+            cfg = configs.cfg("StroquOOL", "Binary", None, configs.BOXES["u1"], n=n)
+            ts.append({"kind": "algo", "label": "base/StroquOOL%d/%s" % (n, base), "cfg": cfg, "mode": "dev", "T": min(n, 450),
+                       "R": list(configs.R2), "base": base, "k": 0, "cost": 2})
     cfg = configs.cfg("StroquOOL", "Binary", None, configs.BOXES["u1"], n=1000)
     ts.append({"kind": "algo", "label": "dev/StroquOOL1000/negpeak", "cfg": cfg, "mode": "dev", "T": 120, "R": list(configs.R3n), "base": "negpeak",
                "k": 1, "cost": 10})
